@@ -1,8 +1,20 @@
 #!/bin/bash
-# usage: tools/try_seed.sh <patch.diff> <Cxx> [<Cyy> ...]  : apply to /repo, run the checks, undo.
-P="$1"; shift
+# usage: tools/try_seed.sh <patch.diff> <Cxx> [<Cyy> ...]
+# Applies the patch to a SCRATCH COPY of /repo (so /repo and anything reading it is undisturbed),
+# runs the checks against the copy (VERIF_REPO), removes the copy.  Pass --in-repo as first arg to
+# use the official protocol instead (git -C /repo apply ...; checks; git -C /repo checkout -- .).
+if [ "$1" = "--in-repo" ]; then
+  shift; P="$(readlink -f "$1")"; shift; cd /verif
+  git -C /repo diff --quiet || { echo "/repo has uncommitted changes"; exit 2; }
+  git -C /repo apply "$P" || { echo "patch does not apply"; exit 2; }
+  for pid in "$@"; do echo "== $pid"; ./vcheck $pid --tier quick; echo "rc=$?"; done
+  git -C /repo checkout -- .
+  exit 0
+fi
+P="$(readlink -f "$1")"; shift
+S=/var/tmp/tryseed-$$
+mkdir -p $S && rsync -a --exclude target --exclude .git /repo/ $S/ || exit 2
+( cd $S && patch -p1 -s < "$P" ) || { echo "patch does not apply"; rm -rf $S; exit 2; }
 cd /verif
-git -C /repo diff --quiet || { echo "/repo has uncommitted changes"; exit 2; }
-git -C /repo apply "$(readlink -f "$P")" || { echo "patch does not apply"; exit 2; }
-for pid in "$@"; do echo "== $pid"; ./vcheck $pid --tier quick; echo "rc=$?"; done
-git -C /repo checkout -- .
+for pid in "$@"; do echo "== $pid"; VERIF_REPO=$S ./vcheck $pid --tier quick; echo "rc=$?"; done
+rm -rf $S
